@@ -71,6 +71,7 @@ class Program:
         self.stmts = []
         self.feats = set()
         self.names = []
+        self.closers = []
         self.tree = None
 
 
@@ -194,7 +195,10 @@ class Gen:
         return len(self.p.toks) - 1
 
     def kw(self, w):
-        return self.t('keyword', w)
+        i = self.t('keyword', w)
+        if w in (b'end', b'until', b'else', b'elseif') and not self.in_line:
+            self.p.closers.append(i)
+        return i
 
     def sym(self, s):
         return self.t('symbol', s)
